@@ -275,4 +275,431 @@ Section Abstract.
     now apply while_fuel_stable.
   Qed.
 
+  (* ---- operations ---- *)
+  (* at rest: accounting invariant and the bound retained <= k * levels *)
+  Definition inv (s : ds) : Prop := wf s /\ d_ret s <= d_k s * Z.of_nat (nlev s) /\ d_ret s <= d_n s.
+
+  Lemma ds_new_inv k dim : 2 <= k -> inv (ds_new k dim).
+  Proof. intros H. unfold inv, wf, nlev, ds_new; simpl. repeat split; try lia. discriminate. Qed.
+
+  Lemma push0_total p ls : ls <> [] -> total (push0 p ls) = Datatypes.S (total ls).
+  Proof. destruct ls as [|l t]; [congruence|]. intros _. simpl. rewrite !total_cons, app_length. simpl. lia. Qed.
+  Lemma push0_length p ls : length (push0 p ls) = length ls.
+  Proof. destruct ls; reflexivity. Qed.
+  Lemma push0_ne p ls : ls <> [] -> push0 p ls <> [].
+  Proof. destruct ls; [congruence|discriminate]. Qed.
+
+  Lemma ds_update_spec s p e s' e' :
+    inv s -> ds_update K s p e = Some (s', e') ->
+    Z.of_nat (length p) = d_dim s /\ inv s' /\ d_n s' = d_n s + 1 /\ d_k s' = d_k s /\ d_dim s' = d_dim s /\
+    (nlev s <= nlev s')%nat /\ 0 < d_ret s'.
+  Proof.
+    intros (Hwf & _ & Hrn). unfold ds_update. destruct (Z.of_nat (length p) =? d_dim s) eqn:Ed; [|discriminate].
+    apply Z.eqb_eq in Ed.
+    pose proof (run_compactions_spec s e Hwf) as Hr. cbv zeta in Hr.
+    destruct (run_compactions K s e) as [s1 e1]. cbn [fst] in Hr.
+    destruct Hr as (Ho & (Hk & Hne & Hret) & Hk' & Hd & Hn & Hle & Hlev).
+    apply over_false in Ho.
+    intros H; inversion H; subst; clear H.
+    unfold inv, wf, nlev in *; cbn [d_k d_dim d_n d_ret d_levels].
+    rewrite push0_total, push0_length by assumption.
+    repeat split; auto using push0_ne; lia.
+  Qed.
+
+  Lemma ds_update_refused s p e : ds_update K s p e = None <-> Z.of_nat (length p) <> d_dim s.
+  Proof.
+    unfold ds_update. destruct (Z.eqb_spec (Z.of_nat (length p)) (d_dim s)) as [E|E].
+    - destruct (run_compactions K s e). split; [discriminate|congruence].
+    - split; auto.
+  Qed.
+
+  Lemma zip_app_total : forall a b, total (zip_app a b) = (total a + total b)%nat.
+  Proof.
+    induction a as [|la ta IH]; intros [|lb tb]; cbn [zip_app]; rewrite ?total_nil, ?total_cons; try lia.
+    rewrite IH, app_length. lia.
+  Qed.
+  Lemma zip_app_length : forall a b, length (zip_app a b) = Nat.max (length a) (length b).
+  Proof.
+    induction a as [|la ta IH]; intros [|lb tb]; cbn [zip_app]; simpl length; try lia.
+    rewrite IH. lia.
+  Qed.
+  Lemma zip_app_ne a b : a <> [] -> zip_app a b <> [].
+  Proof. destruct a, b; simpl; congruence. Qed.
+
+  Lemma ds_merge_spec s o e s' e' :
+    inv s -> inv o -> ds_merge K s o e = Some (s', e') ->
+    inv s' /\ d_k s' = d_k s /\ d_dim s' = d_dim s /\ (nlev s <= nlev s')%nat /\
+    (d_ret o = 0 -> s' = s) /\
+    (d_ret o <> 0 -> d_dim o = d_dim s /\ d_n s' = d_n s + d_n o).
+  Proof.
+    intros Hs Ho. unfold ds_merge.
+    destruct (Z.eqb_spec (d_ret o) 0) as [E0|E0].
+    - intros H; inversion H; subst. split; [exact Hs|]. repeat split; auto; intros; contradiction.
+    - destruct (Z.eqb_spec (d_dim o) (d_dim s)) as [Ed|Ed]; [|discriminate]. cbn [negb].
+      set (m := {| d_k := d_k s; d_dim := d_dim s; d_ret := d_ret s + d_ret o; d_n := d_n s + d_n o;
+                   d_levels := zip_app (d_levels s) (d_levels o) |}).
+      destruct Hs as ((Hk & Hne & Hr) & _ & Hsn). destruct Ho as ((Hk2 & Hne2 & Hr2) & _ & Hon).
+      assert (Hm : wf m).
+      { unfold wf, m; cbn [d_k d_ret d_levels]. rewrite zip_app_total. repeat split; auto using zip_app_ne; lia. }
+      pose proof (run_compactions_spec m e Hm) as Hrc. cbv zeta in Hrc.
+      destruct (run_compactions K m e) as [s1 e1]. cbn [fst] in Hrc.
+      destruct Hrc as (Hov & Hwf1 & Hk' & Hd & Hn & Hle & Hlev).
+      apply over_false in Hov.
+      intros H; inversion H; subst; clear H.
+      assert (nlev s <= nlev m)%nat by (unfold nlev, m; cbn [d_levels]; rewrite zip_app_length; lia).
+      unfold m in Hk', Hd, Hn, Hle; cbn [d_k d_dim d_n d_ret] in Hk', Hd, Hn, Hle.
+      unfold inv. split; [split; [exact Hwf1|lia]|]. repeat split; auto; try lia; try contradiction.
+  Qed.
+
+  Lemma ds_merge_refused s o e : ds_merge K s o e = None <-> d_ret o <> 0 /\ d_dim o <> d_dim s.
+  Proof.
+    unfold ds_merge. destruct (Z.eqb_spec (d_ret o) 0) as [E0|E0].
+    - split; [discriminate|tauto].
+    - destruct (Z.eqb_spec (d_dim o) (d_dim s)) as [Ed|Ed]; cbn [negb].
+      + split; [discriminate|tauto].
+      + split; auto.
+  Qed.
+
+  (* ---- histories ---- *)
+  Fixpoint valid (h : hist) : Prop :=
+    match h with
+    | HNew k _ => 2 <= k                       (* check_k in the constructor *)
+    | HUpd h _ _ => valid h
+    | HMerge h1 h2 _ => valid h1 /\ valid h2
+    end.
+
+  Theorem eval_inv : forall h, valid h -> inv (eval K h).
+  Proof.
+    induction h as [k dim|h IH p e|h1 IH1 h2 IH2 e]; cbn [valid eval].
+    - apply ds_new_inv.
+    - intros Hv. specialize (IH Hv).
+      destruct (ds_update K (eval K h) p e) as [[s' e']|] eqn:E; [|exact IH].
+      apply ds_update_spec in E; [tauto|apply IH].
+    - intros [Hv1 Hv2]. specialize (IH1 Hv1). specialize (IH2 Hv2).
+      destruct (ds_merge K (eval K h1) (eval K h2) e) as [[s' e']|] eqn:E; [|exact IH1].
+      apply ds_merge_spec in E; [tauto|exact IH1|apply IH2].
+  Qed.
+
+  (* no merge source with num_retained = 0 carries inputs (see C20_merge_n_lost_witness for why this is needed) *)
+  Fixpoint lossless (h : hist) : Prop :=
+    match h with
+    | HNew _ _ => True
+    | HUpd h _ _ => lossless h
+    | HMerge h1 h2 _ => lossless h1 /\ lossless h2 /\ (d_ret (eval K h2) = 0 -> inputs K h2 = [])
+    end.
+
+  Theorem n_exact : forall h, valid h -> lossless h ->
+    d_n (eval K h) = Z.of_nat (length (inputs K h)).
+  Proof.
+    induction h as [k dim|h IH p e|h1 IH1 h2 IH2 e]; cbn [valid lossless eval inputs].
+    - reflexivity.
+    - intros Hv Hl. specialize (IH Hv Hl).
+      destruct (ds_update K (eval K h) p e) as [[s' e']|] eqn:E; [|exact IH].
+      apply ds_update_spec in E; [|apply eval_inv, Hv].
+      rewrite app_length; simpl. lia.
+    - intros [Hv1 Hv2] (Hl1 & Hl2 & Hl). specialize (IH1 Hv1 Hl1). specialize (IH2 Hv2 Hl2).
+      destruct (ds_merge K (eval K h1) (eval K h2) e) as [[s' e']|] eqn:E; [|exact IH1].
+      apply ds_merge_spec in E; [|apply eval_inv, Hv1|apply eval_inv, Hv2].
+      destruct E as (_ & _ & _ & _ & Hz & Hnz).
+      rewrite app_length.
+      destruct (Z.eq_dec (d_ret (eval K h2)) 0) as [E0|E0].
+      + rewrite (Hz E0), (Hl E0). simpl. lia.
+      + destruct (Hnz E0) as [_ Hn]. lia.
+  Qed.
+
+  (* ---- iteration ---- *)
+  Lemma iter_levels_length : forall ls w, length (iter_levels w ls) = total ls.
+  Proof.
+    induction ls as [|l t IH]; intros w; [reflexivity|].
+    cbn [iter_levels]. now rewrite total_cons, app_length, map_length, IH.
+  Qed.
+
+  Lemma iter_levels_In : forall ls w p x,
+    In (p, x) (iter_levels w ls) <->
+    exists h, (h < length ls)%nat /\ x = w * 2 ^ Z.of_nat h /\ In p (nth h ls []).
+  Proof.
+    induction ls as [|l t IH]; intros w p x; cbn [iter_levels].
+    - split; [intros []|intros (h & H & _); simpl in H; lia].
+    - rewrite in_app_iff, in_map_iff, IH. split.
+      + intros [(p' & E & Hin)|(h & Hh & Hx & Hin)].
+        * inversion E; subst. exists 0%nat. simpl. repeat split; auto; lia.
+        * exists (Datatypes.S h). simpl length. split; [lia|]. split; [|exact Hin].
+          rewrite Nat2Z.inj_succ, Z.pow_succ_r by lia. lia.
+      + intros ([|h] & Hh & Hx & Hin).
+        * left. exists p. simpl in Hx, Hin. split; [f_equal; lia|exact Hin].
+        * right. exists h. simpl in Hh, Hin. split; [lia|]. split; [|exact Hin].
+          rewrite Nat2Z.inj_succ, Z.pow_succ_r in Hx by lia. lia.
+  Qed.
+
+  (* ---- estimates ---- *)
+  Definition ksum (q : point) (l : list point) : Z := fold_right Z.add 0 (map (fun x => K x q) l).
+
+  Lemma level_sum_acc q w : forall l acc,
+    fold_left (fun acc p => acc + w * K p q) l acc = acc + w * ksum q l.
+  Proof.
+    induction l as [|a l IH]; intros acc; cbn [fold_left ksum map fold_right]; [lia|].
+    rewrite IH. unfold ksum. lia.
+  Qed.
+
+  Lemma level_sum_ksum q w l : level_sum K q w l = w * ksum q l.
+  Proof. unfold level_sum. rewrite level_sum_acc. lia. Qed.
+
+  Lemma ksum_nonneg q l : (forall a b, 0 <= K a b) -> 0 <= ksum q l.
+  Proof. intros H. induction l as [|a l IH]; cbn; [lia|]. specialize (H a q). unfold ksum in IH. lia. Qed.
+
+  Lemma est_levels_nonneg : (forall a b, 0 <= K a b) ->
+    forall ls q w, 0 <= w -> 0 <= est_levels K q w ls.
+  Proof.
+    intros H. induction ls as [|l t IH]; intros q w Hw; cbn [est_levels]; [lia|].
+    rewrite level_sum_ksum. pose proof (ksum_nonneg q l H). specialize (IH q (2 * w)). nia.
+  Qed.
+
+  (* ---- before the first compaction ---- *)
+  Lemma compact_grows s e :
+    wf s -> over (s, e) = true -> (2 <= nlev (fst (compact K (s, e))))%nat.
+  Proof.
+    intros (Hk & Hne & Hr) Ho. apply over_true in Ho. unfold nlev in *. unfold compact.
+    destruct (d_levels s) as [|l [|l1 t]] eqn:El.
+    - congruence.
+    - rewrite total_cons, total_nil in Hr. simpl length in Ho. cbn [compact_ls].
+      assert (Hf : (d_k s <=? Z.of_nat (length l)) = true) by (apply Z.leb_le; lia).
+      rewrite Hf. destruct (compact_one K l e) as [[prom d] e1]. cbn. lia.
+    - destruct (compact_ls K (d_k s) (l :: l1 :: t) e) as [[ls dr] e1] eqn:E.
+      apply compact_ls_spec in E. cbn [fst d_levels]. simpl length in E. lia.
+  Qed.
+
+  Lemma no_compaction s e :
+    wf s -> nlev (fst (run_compactions K s e)) = 1%nat -> run_compactions K s e = (s, e).
+  Proof.
+    intros Hwf H1. unfold run_compactions in *. rewrite while_pow_fuel in *.
+    destruct (over (s, e)) eqn:E0; [|now rewrite while_fuel_done].
+    exfalso.
+    destruct (2 ^ depth s)%nat as [|f] eqn:Ef; [apply Nat.pow_nonzero in Ef; [contradiction|lia]|].
+    cbn [while_fuel] in H1. rewrite E0 in H1.
+    assert (HI : (fun se => wf (fst se) /\ (2 <= nlev (fst se))%nat)
+                   (while_fuel _ over (compact K) f (compact K (s, e)))).
+    { apply while_fuel_inv.
+      - intros [s1 e1] [G1 G2] _. cbn [fst] in *.
+        destruct (compact K (s1, e1)) as [s2 e2] eqn:E.
+        destruct (compact_props _ _ _ _ E G1) as (F1 & _ & _ & _ & _ & F6). cbn [fst]. split; [exact F1|lia].
+      - split; [|now apply compact_grows].
+        destruct (compact K (s, e)) as [s2 e2] eqn:E.
+        now destruct (compact_props _ _ _ _ E Hwf) as (F1 & _). }
+    cbv beta in HI. lia.
+  Qed.
+
+  Fixpoint exact_mode (h : hist) : Prop :=
+    nlev (eval K h) = 1%nat /\
+    match h with
+    | HNew _ _ => True
+    | HUpd h _ _ => exact_mode h
+    | HMerge h1 h2 _ => exact_mode h1 /\ exact_mode h2
+    end.
+
+  Theorem exact_levels : forall h, valid h -> exact_mode h ->
+    d_levels (eval K h) = [inputs K h] /\ d_n (eval K h) = Z.of_nat (length (inputs K h)).
+  Proof.
+    induction h as [k dim|h IH p e|h1 IH1 h2 IH2 e]; cbn [valid exact_mode].
+    - intros _ _. split; reflexivity.
+    - intros Hv [H1 Hx]. destruct (IH Hv Hx) as [IHl IHn]. cbn [eval inputs] in *.
+      pose proof (eval_inv h Hv) as [Hwf _].
+      destruct (ds_update K (eval K h) p e) as [[s' e']|] eqn:E; [|split; assumption].
+      unfold ds_update in E. destruct (Z.of_nat (length p) =? d_dim (eval K h)); [|discriminate].
+      destruct (run_compactions K (eval K h) e) as [s1 e1] eqn:Er.
+      inversion E; subst s' e'; clear E.
+      unfold nlev in H1; cbn [d_levels] in H1. rewrite push0_length in H1.
+      assert (Hnc : run_compactions K (eval K h) e = (eval K h, e)).
+      { apply no_compaction; [exact Hwf|]. rewrite Er. exact H1. }
+      rewrite Hnc in Er. inversion Er; subst s1 e1.
+      cbn [d_levels d_n]. rewrite IHl. cbn [push0]. rewrite app_length. simpl length. split; [reflexivity|lia].
+    - intros [Hv1 Hv2] (H1 & Hx1 & Hx2).
+      destruct (IH1 Hv1 Hx1) as [IHl1 IHn1]. destruct (IH2 Hv2 Hx2) as [IHl2 IHn2].
+      cbn [eval inputs] in *.
+      pose proof (eval_inv h1 Hv1) as Hi1. pose proof (eval_inv h2 Hv2) as [Hwf2 _].
+      destruct (ds_merge K (eval K h1) (eval K h2) e) as [[s' e']|] eqn:E; [|split; assumption].
+      unfold ds_merge in E.
+      destruct (Z.eqb_spec (d_ret (eval K h2)) 0) as [E0|E0].
+      + inversion E; subst s' e'; clear E.
+        destruct Hwf2 as (_ & _ & Hr2). rewrite IHl2, total_cons, total_nil in Hr2.
+        assert (Hnil : inputs K h2 = []) by (apply length_zero_iff_nil; lia).
+        rewrite Hnil, app_nil_r. split; assumption.
+      + destruct (Z.eqb_spec (d_dim (eval K h2)) (d_dim (eval K h1))) as [Ed|Ed]; [|discriminate].
+        cbn [negb] in E.
+        set (m := {| d_k := d_k (eval K h1); d_dim := d_dim (eval K h1);
+                     d_ret := d_ret (eval K h1) + d_ret (eval K h2); d_n := d_n (eval K h1) + d_n (eval K h2);
+                     d_levels := zip_app (d_levels (eval K h1)) (d_levels (eval K h2)) |}) in *.
+        assert (Hm : wf m).
+        { destruct Hi1 as [(Hk & Hne & Hr) _]. destruct Hwf2 as (Hk2 & Hne2 & Hr2).
+          unfold wf, m; cbn [d_k d_ret d_levels]. rewrite zip_app_total. repeat split; auto using zip_app_ne; lia. }
+        assert (Hnc : run_compactions K m e = (m, e)).
+        { apply no_compaction; [exact Hm|]. inversion E as [E']. rewrite E'. exact H1. }
+        rewrite Hnc in E. inversion E; subst s' e'.
+        unfold m; cbn [d_levels d_n]. rewrite IHl1, IHl2. cbn [zip_app]. rewrite app_length. split; [reflexivity|lia].
+  Qed.
+
+  Corollary exact_mean : forall h q, valid h -> exact_mode h ->
+    est_num K (eval K h) q = ksum q (inputs K h) /\ d_n (eval K h) = Z.of_nat (length (inputs K h)).
+  Proof.
+    intros h q Hv Hx. destruct (exact_levels h Hv Hx) as [Hl Hn]. split; [|exact Hn].
+    unfold est_num. rewrite Hl. cbn [est_levels]. rewrite level_sum_ksum. lia.
+  Qed.
+
+  (* the number of levels never decreases *)
+  Lemma levels_monotone_update h p e : valid h -> (nlev (eval K h) <= nlev (eval K (HUpd h p e)))%nat.
+  Proof.
+    intros Hv. cbn [eval]. destruct (ds_update K (eval K h) p e) as [[s' e']|] eqn:E; [|lia].
+    apply ds_update_spec in E; [tauto|apply eval_inv, Hv].
+  Qed.
+  Lemma levels_monotone_merge h1 h2 e : valid h1 -> valid h2 ->
+    (nlev (eval K h1) <= nlev (eval K (HMerge h1 h2 e)))%nat.
+  Proof.
+    intros Hv1 Hv2. cbn [eval]. destruct (ds_merge K (eval K h1) (eval K h2) e) as [[s' e']|] eqn:E; [|lia].
+    apply ds_merge_spec in E; [tauto|apply eval_inv, Hv1|apply eval_inv, Hv2].
+  Qed.
+
+  (* ---- strictly positive kernel: a compaction never drops every point, so n is exact for every history ---- *)
+  Section Positive.
+    Hypothesis Kpos : forall a b, 0 < K a b.
+
+    Lemma assign_some_promoted b l :
+      (2 <= length l)%nat -> filter (fun x : point * bool => snd x) (assign K b l) <> [].
+    Proof.
+      destruct l as [|p0 [|p1 t]]; simpl length; try lia. intros _. cbn [assign signs].
+      destruct (signs_prefix t ([(p0, b)] ++ [(p1, delta K p1 [(p0, b)] <? 0)])) as [x Hx].
+      rewrite Hx, filter_app. cbn [app filter snd].
+      destruct b; [discriminate|].
+      assert (Hd : (delta K p1 [(p0, false)] <? 0) = true).
+      { apply Z.ltb_lt. unfold delta; cbn [fold_left sgn fst snd]. specialize (Kpos p1 p0). lia. }
+      rewrite Hd. discriminate.
+    Qed.
+
+    Lemma compact_one_pos l e prom dr e' :
+      (2 <= length l)%nat -> compact_one K l e = (prom, dr, e') -> prom <> [].
+    Proof.
+      intros Hl. unfold compact_one. destruct (draw e) as [b e1].
+      destruct (fy (length l) l e1) as [sh e2] eqn:Ef.
+      assert (Hs : length sh = length l) by (change sh with (fst (sh, e2)); rewrite <- Ef; apply fy_length).
+      intros H; inversion H; subst; clear H.
+      pose proof (assign_some_promoted (Z.odd b) sh) as Hp. rewrite Hs in Hp. specialize (Hp Hl).
+      destruct (filter (fun x : point * bool => snd x) (assign K (Z.odd b) sh)); [congruence|discriminate].
+    Qed.
+
+    Lemma compact_ls_pos k : 2 <= k -> forall ls e ls' dr e',
+      compact_ls K k ls e = (ls', dr, e') -> (0 < total ls)%nat -> (0 < total ls')%nat.
+    Proof.
+      intros Hk. induction ls as [|l t IH]; intros e ls' dr e' H Ht; cbn [compact_ls] in H.
+      - inversion H; subst. exact Ht.
+      - destruct (k <=? Z.of_nat (length l)) eqn:Ek.
+        + apply Z.leb_le in Ek.
+          destruct (compact_one K l e) as [[prom d] e1] eqn:Ec.
+          apply compact_one_pos in Ec; [|lia].
+          assert (0 < length prom)%nat by (destruct prom; [congruence|simpl; lia]).
+          destruct t as [|l1 t']; inversion H; subst; rewrite !total_cons, ?app_length; lia.
+        + destruct (compact_ls K k t e) as [[t' d] e1] eqn:Ec.
+          inversion H; subst. rewrite total_cons in *.
+          destruct (length l) as [|n]; [|lia]. specialize (IH _ _ _ _ Ec). lia.
+    Qed.
+
+    Lemma run_compactions_pos s e :
+      wf s -> 0 < d_ret s -> 0 < d_ret (fst (run_compactions K s e)).
+    Proof.
+      intros Hwf Hr. unfold run_compactions. rewrite while_pow_fuel.
+      apply (while_fuel_inv _ over (compact K) (fun se => wf (fst se) /\ 0 < d_ret (fst se))); [|split; assumption].
+      intros [s1 e1] [G1 G2] _. cbn [fst] in *.
+      destruct (compact K (s1, e1)) as [s2 e2] eqn:E.
+      destruct (compact_props _ _ _ _ E G1) as (F1 & _). cbn [fst]. split; [exact F1|].
+      unfold compact in E. destruct (compact_ls K (d_k s1) (d_levels s1) e1) as [[ls dr] e3] eqn:Ec.
+      inversion E; subst; clear E.
+      destruct G1 as (Hk & _ & Hret). destruct F1 as (_ & _ & Hret2). cbn [d_ret d_levels] in *.
+      apply (compact_ls_pos _ Hk) in Ec; lia.
+    Qed.
+
+    Lemma ds_merge_pos s o e s' e' :
+      inv s -> wf o -> ds_merge K s o e = Some (s', e') -> (0 < d_ret s \/ d_ret o <> 0) -> 0 < d_ret s'.
+    Proof.
+      intros [Hs _] Ho. unfold ds_merge.
+      destruct (Z.eqb_spec (d_ret o) 0) as [E0|E0].
+      - intros H; inversion H; subst. intros [G|G]; [exact G|contradiction].
+      - destruct (Z.eqb_spec (d_dim o) (d_dim s)) as [Ed|Ed]; [|discriminate]. cbn [negb].
+        set (m := {| d_k := d_k s; d_dim := d_dim s; d_ret := d_ret s + d_ret o; d_n := d_n s + d_n o;
+                     d_levels := zip_app (d_levels s) (d_levels o) |}).
+        destruct Hs as (Hk & Hne & Hr). destruct Ho as (Hk2 & Hne2 & Hr2).
+        assert (Hm : wf m).
+        { unfold wf, m; cbn [d_k d_ret d_levels]. rewrite zip_app_total. repeat split; auto using zip_app_ne; lia. }
+        intros H _. inversion H as [H']. 
+        change s' with (fst (s', e')). rewrite <- H'. apply run_compactions_pos; [exact Hm|].
+        unfold m; cbn [d_ret]. lia.
+    Qed.
+
+    Theorem pos_retained : forall h, valid h -> inputs K h <> [] -> 0 < d_ret (eval K h).
+    Proof.
+      induction h as [k dim|h IH p e|h1 IH1 h2 IH2 e]; cbn [valid eval inputs].
+      - congruence.
+      - intros Hv Hi.
+        destruct (ds_update K (eval K h) p e) as [[s' e']|] eqn:E; [|now apply IH].
+        apply ds_update_spec in E; [tauto|apply eval_inv, Hv].
+      - intros [Hv1 Hv2] Hi.
+        destruct (ds_merge K (eval K h1) (eval K h2) e) as [[s' e']|] eqn:E; [|now apply IH1].
+        eapply ds_merge_pos; [apply eval_inv, Hv1|apply eval_inv, Hv2|exact E|].
+        destruct (inputs K h1) as [|x t] eqn:E1.
+        + right. simpl in Hi. specialize (IH2 Hv2 Hi). lia.
+        + left. apply IH1; [exact Hv1|discriminate].
+    Qed.
+
+    Theorem lossless_pos : forall h, valid h -> lossless h.
+    Proof.
+      induction h as [k dim|h IH p e|h1 IH1 h2 IH2 e]; cbn [valid lossless]; auto.
+      intros [Hv1 Hv2]. repeat split; auto.
+      intros Hr. destruct (inputs K h2) as [|x t] eqn:E2; [reflexivity|].
+      assert (0 < d_ret (eval K h2)) by (apply pos_retained; [exact Hv2|rewrite E2; discriminate]). lia.
+    Qed.
+
+    Corollary n_exact_pos : forall h, valid h -> d_n (eval K h) = Z.of_nat (length (inputs K h)).
+    Proof. intros h Hv. apply n_exact; [exact Hv|now apply lossless_pos]. Qed.
+  End Positive.
+
 End Abstract.
+
+(* ---- statements used verbatim by Properties_C20.v ---- *)
+Section PropertyLevel.
+  Variable K : point -> point -> Z.
+
+  Lemma retained_accounting : forall h, valid h ->
+    d_ret (eval K h) = Z.of_nat (total (d_levels (eval K h))) /\
+    length (ds_iterate (eval K h)) = total (d_levels (eval K h)).
+  Proof.
+    intros h Hv. destruct (eval_inv K h Hv) as ((_ & _ & Hr) & _). split; [exact Hr|apply iter_levels_length].
+  Qed.
+
+  Lemma iteration_weights : forall s p w,
+    In (p, w) (ds_iterate s) <->
+    exists level, (level < length (d_levels s))%nat /\ w = 2 ^ Z.of_nat level /\ In p (nth level (d_levels s) []).
+  Proof.
+    intros s p w. unfold ds_iterate. rewrite iter_levels_In.
+    split; intros (h & H1 & H2 & H3); exists h; repeat split; auto; lia.
+  Qed.
+
+  Lemma exact_before_compaction : forall h q, valid h -> exact_mode K h -> inputs K h <> [] ->
+    ds_estimate K (eval K h) q = Some (ksum K q (inputs K h), Z.of_nat (length (inputs K h))) /\
+    d_levels (eval K h) = [inputs K h].
+  Proof.
+    intros h q Hv Hx Hne. destruct (exact_levels K h Hv Hx) as [Hl Hn].
+    destruct (exact_mean K h q Hv Hx) as [He _]. split; [|exact Hl].
+    unfold ds_estimate. destruct (eval_inv K h Hv) as ((_ & _ & Hr) & _).
+    rewrite Hl in Hr. unfold total in Hr; simpl in Hr. rewrite app_nil_r in Hr.
+    destruct (Z.eqb_spec (d_ret (eval K h)) 0) as [E|E].
+    - destruct (inputs K h); [congruence|simpl in Hr; lia].
+    - now rewrite He, Hn.
+  Qed.
+
+  Lemma estimate_nonneg : (forall a b, 0 <= K a b) ->
+    forall h q num den, valid h -> ds_estimate K (eval K h) q = Some (num, den) -> 0 <= num /\ 0 < den.
+  Proof.
+    intros HK h q num den Hv. unfold ds_estimate.
+    destruct (eval_inv K h Hv) as ((_ & _ & Hr) & _ & Hn).
+    destruct (Z.eqb_spec (d_ret (eval K h)) 0) as [E|E]; [discriminate|].
+    intros H; inversion H; subst; clear H.
+    assert (H0 : 0 <= est_num K (eval K h) q) by (apply est_levels_nonneg; [exact HK|lia]).
+    split; [exact H0|lia].
+  Qed.
+End PropertyLevel.
